@@ -10,6 +10,9 @@
    HEADERS, undecodable or malformed HEADERS), stream finished or reset and then dropped, halves dropped
    one after the other.  The bookkeeping below is about the application's objects only.
 
+   Errors:   accept() reports a connection error only when the inputs justify one: an undecodable (QPACK) or
+             wrong-first-frame request (QPACK_DECOMPRESSION_FAILED / H3_FRAME_UNEXPECTED), or a peer GOAWAY whose
+             identifier is larger than the previous one (H3_ID_ERROR).  An equal or smaller one is legal.
    Safety:   accept() answers "no more requests" only when every request handed out has ended.
    Liveness: once the peer's GOAWAY has arrived, every request handed out has ended and no request
              stream is waiting, accept() does not answer "pending". *)
@@ -74,29 +77,47 @@ Fixpoint update {V} (id : N) (v : option V) (l : list (N * V)) : list (N * V) :=
 
 Record astate := { a_objs : list (N * aobj);   (* requests handed out and not yet ended *)
                    a_goaway : bool;            (* the peer's GOAWAY has arrived *)
-                   a_wait : list N }.          (* request streams opened by the peer, not yet taken *)
-Definition astate0 : astate := {| a_objs := []; a_goaway := false; a_wait := [] |}.
+                   a_wait : list N;            (* request streams opened by the peer, not yet taken *)
+                   a_lastgo : option N;        (* identifier of the peer's most recent GOAWAY *)
+                   a_excuse : list N }.        (* connection error codes the inputs so far justify *)
+Definition astate0 : astate := {| a_objs := []; a_goaway := false; a_wait := []; a_lastgo := None; a_excuse := [] |}.
+
+Definition rfc_QPACK_DECOMPRESSION_FAILED : N := 512.   (* 0x0200, RFC 9204 6 *)
+Definition rfc_H3_FRAME_UNEXPECTED : N := 261.          (* 0x0105 *)
+(* the connection error a failed request justifies *)
+Definition fail_excuse (op : dop) : list N :=
+  match op with
+  | DHeadersFail _ KBadQpack => [rfc_QPACK_DECOMPRESSION_FAILED]
+  | DHeadersFail _ KUnexpected => [rfc_H3_FRAME_UNEXPECTED]
+  | _ => []
+  end.
+Definition st_objs (st : astate) (o : list (N * aobj)) (w : list N) (ex : list N) : astate :=
+  {| a_objs := o; a_goaway := a_goaway st; a_wait := w; a_lastgo := a_lastgo st; a_excuse := ex |}.
 
 Definition app_step (st : astate) (e : dev) : astate :=
   match e with
-  | DI (DArrive id) => {| a_objs := a_objs st; a_goaway := a_goaway st; a_wait := a_wait st ++ [id] |}
-  | DI (DPeerGoaway _) => {| a_objs := a_objs st; a_goaway := true; a_wait := a_wait st |}
+  | DI (DArrive id) => st_objs st (a_objs st) (a_wait st ++ [id]) (a_excuse st)
+  | DI (DPeerGoaway pid) =>
+      {| a_objs := a_objs st; a_goaway := true; a_wait := a_wait st; a_lastgo := Some pid;
+         a_excuse := (match a_lastgo st with
+                      | Some p => if p <? pid then [rfc_H3_ID_ERROR] else []
+                      | None => []
+                      end) ++ a_excuse st |}
   | DI op =>
       match op_target op with
       | Some id =>
           match lookup id (a_objs st) with
           | Some o =>
               match obj_update o op with
-              | Some o' => {| a_objs := update id o' (a_objs st); a_goaway := a_goaway st; a_wait := a_wait st |}
+              | Some o' => st_objs st (update id o' (a_objs st)) (a_wait st) (fail_excuse op ++ a_excuse st)
               | None => st
               end
           | None => st
           end
       | None => st
       end
-  | DO (EShown id) => {| a_objs := a_objs st ++ [(id, AResolver)]; a_goaway := a_goaway st;
-                         a_wait := remove1 id (a_wait st) |}
-  | DO (ERejected id _ _) => {| a_objs := a_objs st; a_goaway := a_goaway st; a_wait := remove1 id (a_wait st) |}
+  | DO (EShown id) => st_objs st (a_objs st ++ [(id, AResolver)]) (remove1 id (a_wait st)) (a_excuse st)
+  | DO (ERejected id _ _) => st_objs st (a_objs st) (remove1 id (a_wait st)) (a_excuse st)
   | DO _ => st
   end.
 
@@ -109,6 +130,8 @@ Definition drain_safe (t : list dev) : Prop :=
   forall a b, t = a ++ DO ENone :: b -> all_ended (app_after a).
 Definition drain_live (t : list dev) : Prop :=
   forall a b, t = a ++ DO EPending :: b -> ~ drained (app_after a).
+Definition errors_justified (t : list dev) : Prop :=
+  forall a b c, t = a ++ DO (EErr c) :: b -> In c (a_excuse (app_after a)).
 
 (* one-pass monitor: the oracle on real traces *)
 Definition is_nilb {A} (l : list A) : bool := match l with [] => true | _ => false end.
@@ -116,6 +139,7 @@ Definition drain_check (st : astate) (e : dev) : bool :=
   match e with
   | DO ENone => is_nilb (a_objs st)
   | DO EPending => negb (a_goaway st && is_nilb (a_objs st) && is_nilb (a_wait st))
+  | DO (EErr c) => existsb (N.eqb c) (a_excuse st)
   | _ => true
   end.
 Fixpoint drain_run (st : astate) (t : list dev) : bool :=
